@@ -17,10 +17,13 @@ package main
 //	 "coq": "reads_ensureWriteDir", "args": {"pkgfiles": ["content/file/file.go", "content/file/utils.go", "content/file/errors.go"]}}
 
 import (
+	"bytes"
 	"go/ast"
+	"go/printer"
 	"go/token"
 	"sort"
 	"strconv"
+	"strings"
 )
 
 func c11pkgVars(x *Ctx, files []string) map[string]bool {
@@ -211,5 +214,39 @@ func init() {
 		}
 		x.Printf("(* %s: %s.%s, argument %d of call #%d of %s = %s *)\n", it.File, it.Recv, it.Func, index, occ, it.Name, lit.Value)
 		x.Printf("Definition %s : N := %d%%N.\n\n", coqName(it), v)
+	}
+}
+
+// kind "c11_srcfact": a guard or statement that Model/FileConfine.v mirrors is present, verbatim up
+// to white space, in the body of the named function:
+//
+//	{"kind": "c11_srcfact", "file": "content/file/file.go", "recv": "Store", "func": "resolveWritePath",
+//	 "coq": "c11_fact_traversal_test", "args": {"text": "strings.HasPrefix(rel, \"../\") || rel == \"..\""}}
+//
+// emitted as `Definition <coq> : bool := true | false.`; Proofs/FileConfineSrc.v proves the
+// conjunction by reflexivity, so an edit of one of these places (the traversal test, where a hard
+// link's old name is resolved, which Lstat results count as "not there", ...) breaks layer P even
+// when no generated input happens to distinguish the behaviours.
+func init() {
+	kinds["c11_srcfact"] = func(x *Ctx, it Item) {
+		fd := findFunc(x.File(it.File), it.Recv, it.Func)
+		if fd == nil || fd.Body == nil {
+			fail("%s: function %s.%s not found", it.File, it.Recv, it.Func)
+		}
+		text, _ := it.Args["text"].(string)
+		if text == "" {
+			fail("%s: c11_srcfact %s without text", it.File, coqName(it))
+		}
+		var buf bytes.Buffer
+		if err := printer.Fprint(&buf, x.Fset(), fd.Body); err != nil {
+			fail("%s: cannot print %s", it.File, it.Func)
+		}
+		norm := func(s string) string { return strings.Join(strings.Fields(s), "") }
+		v := "false"
+		if strings.Contains(norm(buf.String()), norm(text)) {
+			v = "true"
+		}
+		x.Printf("(* %s: %s.%s contains `%s` *)\n", it.File, it.Recv, it.Func, strings.ReplaceAll(text, "*)", "* )"))
+		x.Printf("Definition %s : bool := %s.\n\n", coqName(it), v)
 	}
 }
